@@ -168,3 +168,36 @@ Theorem C13_matrix_variants_frozen_forever :
      fold_left (fun q h => atcf_update q (fst (fst h)) (snd (fst h)) (snd h)) hist p = p).
 Proof. exact (conj atf_frozen_forever (conj atc_frozen_forever atcf_frozen_forever)). Qed.
 Print Assumptions C13_matrix_variants_frozen_forever.
+
+(** ** "Once the configured adaptation duration has elapsed ..." on the chain's own clock:
+    [_nsteps] advances by one per chain iteration and the window reads [_nsteps // jump_interval];
+    from chain iteration [jump_interval * (duration + start_step - 1)] on, whatever the acceptance
+    records, positions and virtual-move ratios that follow, the adaptation state of every family
+    with an end of adaptation is what it was: all later samples come from one fixed kernel. *)
+From Epsie Require Import Clock AdaptClock_proofs.
+
+Theorem C13_frozen_on_the_chain_clock :
+  (forall (v : @veitch R) (c : pclock) (hist : list bool),
+     (1 <= pk c)%nat -> (Z.of_nat (pk c) * (v_T v + v_start v - 1) <= Z.of_nat (pn c))%Z ->
+     fst (fold_left (run1 _ _ (fun st n acc => veitch_update st n acc)) hist (v, c)) = v)
+  /\ (forall (p : @at_state R) (c : pclock) (hist : list (R * list R)),
+     (1 <= pk c)%nat -> (Z.of_nat (pk c) * (a_T p + a_start p - 1) <= Z.of_nat (pn c))%Z ->
+     fst (fold_left (run1 _ _ (fun st n i => at_update st n (fst i) (snd i))) hist (p, c)) = p)
+  /\ (forall (p : @atf_state R) (c : pclock) (hist : list (R * list R)),
+     (1 <= pk c)%nat -> (Z.of_nat (pk c) * (f_T p + f_start p - 1) <= Z.of_nat (pn c))%Z ->
+     fst (fold_left (run1 _ _ (fun st n i => atf_update st n (fst i) (snd i))) hist (p, c)) = p)
+  /\ (forall (p : @atc_state R) (c : pclock) (hist : list (list R * list R)),
+     (1 <= pk c)%nat -> (Z.of_nat (pk c) * (c_T p + c_start p - 1) <= Z.of_nat (pn c))%Z ->
+     fst (fold_left (run1 _ _ (fun st n i => atc_update st n (fst i) (snd i))) hist (p, c)) = p)
+  /\ (forall (p : @atcf_state R) (c : pclock) (hist : list (list R * list R)),
+     (1 <= pk c)%nat -> (Z.of_nat (pk c) * (g_T p + g_start p - 1) <= Z.of_nat (pn c))%Z ->
+     fst (fold_left (run1 _ _ (fun st n i => atcf_update st n (fst i) (snd i))) hist (p, c)) = p)
+  /\ (forall (p : @rm_state R) (c : pclock) (hist : list R),
+     (1 <= pk c)%nat -> (Z.of_nat (pk c) * (r_T p + r_start p - 1) <= Z.of_nat (pn c))%Z ->
+     fst (fold_left (run1 _ _ (fun st n ar => eig_update st n ar)) hist (p, c)) = p
+     /\ fst (fold_left (run1 _ _ (fun st n ar => kappa_update st n ar)) hist (p, c)) = p).
+Proof.
+  exact (conj veitch_frozen_clock (conj at_frozen_clock (conj atf_frozen_clock (conj atc_frozen_clock
+         (conj atcf_frozen_clock eig_kappa_frozen_clock))))).
+Qed.
+Print Assumptions C13_frozen_on_the_chain_clock.
